@@ -90,6 +90,10 @@ GLOBAL = [
     ("[1,'a']", "list", "[1,'a']"), ("['a']", "list", "['a']"),
     ("[1,2,3]", "list", "[1,2,3]"), ("[3]", "list", "[3]"), ("[1,3]", "list", "[1,3]"),
     ("[nan]", "list", "[nan]"), ("[None]", "list", "[None]"),
+    # lists whose first wrongly typed item is None (the other items may be fine or wrong too)
+    ("[1,None]", "list-none-item", "[1,None]"), ("[None,1]", "list-none-item", "[None,1]"),
+    ("[1,None,'a']", "list-none-item", "[1,None,'a']"), ("['a',None]", "list-none-item", "['a',None]"),
+    ("[len,None]", "list-none-item", "[len,None]"), ("[int,None]", "list-none-item", "[int,None]"),
     ("[len]", "list-callable", "[len]"), ("[len,1]", "list", "[len,1]"),
     ("[int]", "list-class", "[int]"), ("[int,str]", "list-class", "[int,str]"),
     ("[bool,int]", "list-class", "[bool,int]"), ("[int,1]", "list", "[int,1]"),
@@ -898,7 +902,12 @@ def run(tier, seed):
               "for JSON-native values); callables (plain function, lambda, callable object, functools.partial, "
               "builtin, bound method, tuples of them) are offered to every type; "
               "quick: instance and constructor-default routes complete, other routes 1-in-8 slice by seed "
-              "(callables on Dynamic-derived types: every route)"
+              "(callables on Dynamic-derived types: every route); "
+              "FAMILY MX (bounded/c18_mixed.py): Selector/ListSelector x {dict,list}-declared objects x {class,instance}-level "
+              "Parameter, histories of list-style in-place edits of `objects` ([i]=, [a:b]=, append, insert, extend, pop, "
+              "remove, clear; quick 2 / thorough 3 edits on the core configurations), after every edit one assignment per "
+              "route (instance, constructor keyword, class, update, deserialize-then-update, untouched older instance) of every "
+              "object seen so far + a never-member: accepted iff among the CURRENT objects"
               % (len(all_configs()), len(GLOBAL)))
     cfgs = all_configs()
     n = len(cfgs)
@@ -965,6 +974,10 @@ def run(tier, seed):
            "(exception class only); %d successful attempts had their installed object compared by identity"
            % (attempts, decided, attempts - decided,
               sum(v for k, v in ce.items() if k.endswith("installed-is-assigned"))))
+    # ---- family MX: Selector / ListSelector membership against the CURRENT objects after list-style in-place
+    #      edits of `objects` (dict- and list-declared), every route  (bounded/c18_mixed.py, shared with C18)
+    from bounded import c18_mixed
+    c18_mixed.run_family(B, "C01", tier, seed)
     B.note("out of scope (DESIGN 7/C01): verdict on callables given to Number/Integer/Magnitude (value "
            "generators: only the exception class is checked; Date/CalendarDate must reject them), callables "
            "that do not accept attribute assignment on Number/Integer/Magnitude and as constructor default "
